@@ -60,3 +60,17 @@ PROPS['C13'] = dict(
     clauses={'own non-final tasks FAILED, pilot named': 'P',
              'other pilots / unbound / final tasks keep state': 'P',
              'callback registered for every added pilot (add_pilots)': 'A'})
+
+PROPS['C16'] = dict(
+    level='proof',
+    claim='the forwarding hop Session.crosswire_pubsub.pubsub_fwd (a nested function, verified as a function of its captured variables) meets its hop contract for every message, flag and origin combination; composition lemmas over the hop contracts for arbitrary distinct sides (any number of pilots): forwarded iff flagged, delivered to every other side, not delivered back, not forwarded again; wiring of the four forwarders and the fwd defaults are read from the AST and checked exhaustively',
+    note='ZeroMQ pub/sub delivering each published message once to each subscriber is assumed (transport, outside /repo)',
+    assumptions=['A2', 'A4', 'A5', 'A11'],
+    trusted_base=['ru.zmq.Publisher / Subscriber (radical.utils): each put is delivered once to every subscriber of the channel'],
+    explanation='hop contract + composition lemmas + literal wiring check',
+    clauses={'outbound hop: forwards iff fwd and own origin, clears fwd': 'P',
+             'inbound hop: forwards iff foreign origin': 'P',
+             'exactly once to every other side / never back / no circulation (lemmas, any number of sides)': 'P',
+             'four forwarders wired (src, tgt, from_proxy)': 'P (finite)',
+             'agent advances forwarded by default, client not': 'P (finite)',
+             'ZeroMQ delivery': 'A'})
